@@ -157,6 +157,10 @@ pub mod streaming;
 /// Core type definitions for values, operators, and actions
 pub mod types;
 
+/// Verification hooks (injected clock); compiled only with the `verif-hooks` feature
+#[cfg(feature = "verif-hooks")]
+pub mod verif_hooks;
+
 // Re-export core types for easy access
 pub use errors::{Result, RuleEngineError};
 pub use types::{ActionType, LogicalOperator, Operator, Value};
